@@ -1,5 +1,106 @@
+(* C15 — snap-initiated refresh holds are bounded.
+   This file holds the property theorems only: statement, `exact <lemma>`, Print Assumptions.
+   Model: models/Holds.v (overlord/snapstate/autorefresh_gating.go function by function); constants: gen/HoldConsts.v
+   (regenerated from overlord/snapstate/autorefresh.go, autorefresh_gating.go and the two gating call sites).
+   Snap 0 is the holder name `system`; times are nanoseconds; forty_eight_h and ninety_days are literal numbers.
+   A history is any list of operations Hold / SysHold / Proceed / Reset / Refreshed / Tick from a state without holds
+   in which no last-refresh time lies in the future; `default_duration` says that every request by a gating snap asks
+   for the default (zero = maximum) duration, which the translator checks for both production call sites. *)
 From Coq Require Import List NArith ZArith Bool.
-Require Import V.models.Holds.
-Theorem C15_placeholder : Holds.system = 0%N.
-Proof. reflexivity. Qed.
-Print Assumptions C15_placeholder.
+Import ListNotations.
+Require Import V.gen.HoldConsts V.models.Holds V.proofs.HoldsProofs.
+Open Scope Z_scope.
+
+(* the constants of the code are the 48 hours and 90 days of the property, and the call sites pass the zero duration *)
+Theorem C15_constants :
+  max_other_hold_duration = forty_eight_h /\ max_postponement - max_postponement_buffer = ninety_days /\
+  gating_call_sites_pass_zero_duration = true.
+Proof. exact (conj other_val (conj mp_val call_sites_default)). Qed.
+Print Assumptions C15_constants.
+
+(* 48 hours: whenever HeldSnaps reports a hold of s by another snap g, at most 48 h have passed since that hold episode
+   began. The episode start `ep s g` is a ghost value defined from the appearance and disappearance of the entry. *)
+Theorem C15_other_48h : forall (lr0 : N -> Z) (now0 : Z) (ops : list op) (st : state) (ep : episodes),
+  (forall s, lr0 s <= now0) -> forallb default_duration ops = true ->
+  run_ep (init_state lr0 now0) no_episodes ops = (st, ep) ->
+  forall level s g, g <> system -> g <> s -> effective st level s g = true ->
+  exists t0, ep s g = Some t0 /\ st_now st <= t0 + forty_eight_h.
+Proof. exact other_48h. Qed.
+Print Assumptions C15_other_48h.
+
+(* 90 days: no hold by any gating snap (the snap itself included, explicit durations included) is reported later than
+   90 days after the held snap's last refresh *)
+Theorem C15_any_90d : forall (lr0 : N -> Z) (now0 : Z) (ops : list op),
+  (forall s, lr0 s <= now0) ->
+  let st := run (init_state lr0 now0) ops in
+  forall level s g, g <> system -> effective st level s g = true ->
+  st_now st <= st_lastref st s + ninety_days.
+Proof. exact any_90d. Qed.
+Print Assumptions C15_any_90d.
+
+(* once a bound is reached a further request is refused and removes every requested hold of that gating snap *)
+Theorem C15_refused_at_bound : forall (st : state) (level g : N) (dur : Z) (snaps : list N) (s : N),
+  g <> system -> In s snaps -> at_bound st g s ->
+  op_result st (Hold level g dur snaps) = None /\
+  forall s', In s' snaps -> st_gating (step st (Hold level g dur snaps)) s' g = None.
+Proof. exact refused_at_bound. Qed.
+Print Assumptions C15_refused_at_bound.
+
+(* the hold stops being reported after its end, in particular after either bound *)
+Theorem C15_not_reported_after : forall (lr0 : N -> Z) (now0 : Z) (ops : list op) (st : state) (ep : episodes),
+  (forall s, lr0 s <= now0) -> forallb default_duration ops = true ->
+  run_ep (init_state lr0 now0) no_episodes ops = (st, ep) ->
+  forall level s g t0, g <> system -> ep s g = Some t0 ->
+  (g <> s /\ t0 + forty_eight_h < st_now st) \/ st_lastref st s + ninety_days < st_now st ->
+  effective st level s g = false.
+Proof. exact not_reported_after_bound. Qed.
+Print Assumptions C15_not_reported_after.
+
+Theorem C15_not_reported_after_expiry : forall (st : state) (level s g : N) (h : hold),
+  st_gating st s g = Some h -> h_until h < st_now st -> effective st level s g = false.
+Proof. exact not_reported_after_expiry. Qed.
+Print Assumptions C15_not_reported_after_expiry.
+
+(* holds set by the administrator last until the requested time (forever = the largest duration) at the requested
+   level and survive whatever gating snaps, refreshes and the clock do; guarded by: the requested time is not the
+   current instant (see C15_system_hold_until_now_refuted) *)
+Theorem C15_system_hold : forall (st : state) (level : N) (t : option Z) (snaps : list N) (s : N) (ops : list op),
+  In s snaps -> t <> Some (st_now st) -> forallb (sys_untouched s) ops = true ->
+  let st2 := run (step st (SysHold level t snaps)) ops in
+  forall lvl, effective st2 lvl s system = (lvl <=? level)%N && (st_now st2 <=? sys_until (st_now st) t).
+Proof. exact system_hold. Qed.
+Print Assumptions C15_system_hold.
+
+Theorem C15_system_hold_end_is_requested_time : forall now u : Z,
+  min_int64 <= u - now <= max_int64 -> sys_until now (Some u) = u.
+Proof. exact sys_until_exact. Qed.
+Print Assumptions C15_system_hold_end_is_requested_time.
+
+(* the full statement without the guard is false of the faithful model: a system hold requested to end at exactly
+   the current instant is still reported afterwards (it lasts forever). KNOWN_FINDINGS key system-hold-until-now;
+   replayed on the implementation on every run. *)
+Theorem C15_system_hold_until_now_refuted : exists (st0 : state) (s : N),
+  let st := run st0 [SysHold 0 (Some (st_now st0)) [s]; Tick 1] in
+  effective st 0 s system = true /\ st_now st0 < st_now st.
+Proof. exists (init_state (fun _ => - h_ns) 0), 1%N. exact system_hold_until_now_witness. Qed.
+Print Assumptions C15_system_hold_until_now_refuted.
+
+(* why the quantifier is restricted to default durations: with explicit durations the 48 h bound is false *)
+Theorem C15_explicit_duration_refuted : exists (lr0 : N -> Z) (now0 : Z) (ops : list op),
+  (forall s, lr0 s <= now0) /\
+  let '(st, ep) := run_ep (init_state lr0 now0) no_episodes ops in
+  effective st 0 2 1 = true /\ ep 2%N 1%N = Some now0 /\ now0 + forty_eight_h < st_now st.
+Proof.
+  exists (fun _ => - h_ns), 0, explicit_witness. split; [intros _; discriminate | exact explicit_duration_witness].
+Qed.
+Print Assumptions C15_explicit_duration_refuted.
+
+(* non-vacuity: a default-duration history in which the hold of snap 2 by snap 1 is reported, and one hour later
+   (48 h after the first request) the same request is refused *)
+Example C15_hypotheses_satisfiable :
+  forallb default_duration default_witness = true /\
+  effective (run (init_state (fun _ => - h_ns) 0) default_witness) 0 2 1 = true.
+Proof. exact default_witness_effective. Qed.
+Example C15_refusal_happens :
+  op_result (run (init_state (fun _ => - h_ns) 0) (default_witness ++ [Tick (Z.to_N h_ns)])) (Hold 0 1 0 [1%N; 2%N]) = None.
+Proof. exact default_witness_refused. Qed.
